@@ -5,6 +5,7 @@ import (
 	"encoding/hex"
 	"errors"
 	"fmt"
+	"sync/atomic"
 
 	blsu "github.com/protolambda/bls12-381-util"
 	"github.com/protolambda/ztyp/codec"
@@ -72,19 +73,25 @@ func (p *BLSPubkey) Pubkey() (*blsu.Pubkey, error) {
 }
 
 type CachedPubkey struct {
-	Compressed   BLSPubkey
-	decompressed *blsu.Pubkey
+	Compressed BLSPubkey
+	// Filled on first use. Cached pubkeys are shared (pubkey cache, sync committees),
+	// the first use may happen in several goroutines at once.
+	decompressed atomic.Pointer[blsu.Pubkey]
 }
 
 func (c *CachedPubkey) Pubkey() (*blsu.Pubkey, error) {
-	if c.decompressed == nil {
-		pub, err := c.Compressed.Pubkey()
-		if err != nil {
-			return nil, err
-		}
-		c.decompressed = pub
+	if pub := c.decompressed.Load(); pub != nil {
+		return pub, nil
 	}
-	return c.decompressed, nil
+	pub, err := c.Compressed.Pubkey()
+	if err != nil {
+		return nil, err
+	}
+	// Concurrent first uses decompress the same bytes: keep the point that was stored first.
+	if !c.decompressed.CompareAndSwap(nil, pub) {
+		return c.decompressed.Load(), nil
+	}
+	return pub, nil
 }
 
 func ViewPubkey(pub *BLSPubkey) *BLSPubkeyView {
